@@ -22,6 +22,7 @@
        6 k         get_properties(sample=k) -> 0 ms (attributes of that file) | 1 IOError | 2 ValueError
        7           FilesInv checker on the first directory -> 0 | 1
        8 s e       Spec: runs (files_abs dir0) s e   (same format as query 1; cost ~ e - s)
+       9           dirs_ok checker (all directories FilesInv, no file period twice) -> 0 | 1
    Inside Coq (e.g. for C01): `read ExactRational c fs s e : list (Z * list V)` with
    `c := mkCfg n d fc sc` and `fs : list (rfile V)` built with `mkFile sub ms index data`, files in
    ascending file time; `Proofs.ReaderProofs.reader_refines : FilesInv c fs -> read ExactRational c fs
@@ -115,6 +116,7 @@ Definition answer (lk : lookup) (sq : squeeze) (c : cfg) (nsub : Z) (dirs : list
          end
   | 7 => [if files_inv_b c d0 then 1 else 0]
   | 8 => enc_blocks (runs (files_abs d0) a1 a2)
+  | 9 => [if dirs_ok_b c dirs then 1 else 0]
   | _ => [-999]
   end.
 
